@@ -24,7 +24,11 @@ def c02 (args : List String) : String :=
       let pre := match Spec.value true (Spec.fuelFor buf) buf (skipWs buf 0) with
         | .ok e => Spec.utf8FirstInvalid buf 0 ≥ e
         | _ => false
-      s!"m.lazy={verdictStr lz} spec.skip={ar (u && g)} spec.full={ar (u && s)} spec.prefix={ar pre} utf8={ar u}"
+      -- … and the validate-and-skip strength of the same
+      let spre := match Spec.value false (Spec.fuelFor buf) buf (skipWs buf 0) with
+        | .ok e => Spec.utf8FirstInvalid buf 0 ≥ e
+        | _ => false
+      s!"m.lazy={verdictStr lz} spec.skip={ar (u && g)} spec.full={ar (u && s)} spec.prefix={ar pre} spec.sprefix={ar spre} utf8={ar u}"
   | _ => "bad-args"
 
 end Driver
